@@ -203,6 +203,13 @@ def gen_cases(tier, seed):
                           tier)
     for i in range(120 if tier == 'quick' else 16 * 300):
         yield gen_stale(random.Random(f'C01/stale/{seed}/{tier}/{i}'))
+    # automatic identifiers drawn by populate_world_from_dict in a world
+    # that is in use (scenario shared with C15, see vf/props/c15.py)
+    from vf.props import c15
+    for i in range(150 if tier == 'quick' else 16 * 300):
+        yield dict(c15.gen_prepop(
+            random.Random(f'C01/prepop/{seed}/{tier}/{i}')),
+            scenario='prepopulated')
     for i in range(3 if tier == 'quick' else 48):
         yield gen_scale(random.Random(f'C01/scale/{seed}/{tier}/{i}'))
     n = 2400 if tier == 'quick' else 16 * 6000
@@ -431,6 +438,9 @@ def run_case(case):
         return session.run(case, 'C01')
     if case.get('scenario') == 'stale-mark':
         return run_stale(case)
+    if case.get('scenario') == 'prepopulated':
+        from vf.props import c15
+        return c15.run_prepop(case)
     res = Res()
     driver = C01Driver(case, res)
     driver.run()
